@@ -28,14 +28,16 @@ func isMiddlewareSlice(t types.Type) bool {
 }
 
 type chain struct {
-	k     *ssa.Function // the continuation closure
-	field *types.Var    // the middleware slice field
-	idx   ssa.Value     // index value used to select the stage
-	stage *ssa.Call     // call of the selected middleware
-	cmp   *ssa.BinOp    // idx < len(slice)
-	core  *ssa.Call     // call of the innermost handler
-	off   int           // index of the context parameter of k (1 when k is a method: the continuation is a bound method value)
-	pos   int           // method form: index of the receiver's field holding the chain position (-1 otherwise)
+	k        *ssa.Function // the continuation closure
+	field    *types.Var    // the middleware slice field
+	idx      ssa.Value     // index value used to select the stage
+	stage    *ssa.Call     // call of the selected middleware
+	cmp      *ssa.BinOp    // idx < len(slice), or one of its three other spellings
+	cmpPos   ssa.Value     // the position operand of cmp
+	cmpStage bool          // outcome of cmp on which a stage remains (true for `idx < len`, false for `idx >= len`)
+	core     *ssa.Call     // call of the innermost handler
+	off      int           // index of the context parameter of k (1 when k is a method: the continuation is a bound method value)
+	pos      int           // method form: index of the receiver's field holding the chain position (-1 otherwise)
 	// endAtBuild: the end of the chain is decided when the continuation is built — the builder returns the core
 	// handler itself (a bound method) once position >= len(chain), and a stage continuation otherwise
 	endAtBuild bool
@@ -94,14 +96,26 @@ func findChains(p *Program) []*chain {
 		allInstrs(fn, func(in ssa.Instruction) {
 			switch x := in.(type) {
 			case *ssa.BinOp:
-				if x.Op == token.LSS {
-					if y, ok := lenOperand(x.Y); ok {
+				// position < len(chain), written any of the four ways; cmpStage: the outcome on which a stage remains
+				isChainLen := func(v ssa.Value) bool {
+					if y, ok := lenOperand(v); ok {
 						if ld, ok := y.(*ssa.UnOp); ok {
 							if _, f2, ok := fieldAddrOf(ld.X); ok && f2 == c.field {
-								c.cmp = x
+								return true
 							}
 						}
 					}
+					return false
+				}
+				switch {
+				case x.Op == token.LSS && isChainLen(x.Y):
+					c.cmp, c.cmpPos, c.cmpStage = x, x.X, true
+				case x.Op == token.GTR && isChainLen(x.X):
+					c.cmp, c.cmpPos, c.cmpStage = x, x.Y, true
+				case x.Op == token.GEQ && isChainLen(x.Y):
+					c.cmp, c.cmpPos, c.cmpStage = x, x.X, false
+				case x.Op == token.LEQ && isChainLen(x.X):
+					c.cmp, c.cmpPos, c.cmpStage = x, x.Y, false
 				}
 			case *ssa.Call:
 				if x == c.stage {
@@ -452,18 +466,18 @@ func runC19(r *Run, verifDir string) {
 		if w3 == "" && c.endAtBuild {
 			// checked by builderEndsChain: stage continuation built only under position < len(chain), core otherwise
 		} else if w3 == "" {
-			if c.cmp == nil || (c.cmp.X != c.idx && accessPath(c.cmp.X) != accessPath(c.idx)) {
+			if c.cmp == nil || (c.cmpPos != c.idx && accessPath(c.cmpPos) != accessPath(c.idx)) {
 				w3 = "no `position < len(chain)` test selects between stage and core"
 			} else {
 				stageOK, coreOK := false, false
 				for _, dc := range dominatingConds(c.stage.Block()) {
-					if dc.cond == ssa.Value(c.cmp) && dc.outcome {
+					if dc.cond == ssa.Value(c.cmp) && dc.outcome == c.cmpStage {
 						stageOK = true
 					}
 				}
 				if c.core != nil {
 					for _, dc := range dominatingConds(c.core.Block()) {
-						if dc.cond == ssa.Value(c.cmp) && !dc.outcome {
+						if dc.cond == ssa.Value(c.cmp) && dc.outcome != c.cmpStage {
 							coreOK = true
 						}
 					}
@@ -536,6 +550,20 @@ func runC19(r *Run, verifDir string) {
 						}
 					}
 					return true
+				case *ssa.UnOp:
+					// a named result (or a local) spilled to a cell: every value stored into the cell passes
+					if al, ok := x.X.(*ssa.Alloc); ok && x.Op == token.MUL {
+						n := 0
+						for _, ref := range *al.Referrers() {
+							if st, ok := ref.(*ssa.Store); ok && st.Addr == ssa.Value(al) {
+								n++
+								if !passes(st.Val, i, d+1) {
+									return false
+								}
+							}
+						}
+						return n > 0
+					}
 				}
 				return false
 			}
@@ -722,17 +750,22 @@ func c19Registration(r *Run) {
 					direct = ct.X
 				}
 				callerSlice := false
-				if _, ok := direct.(*ssa.Parameter); ok {
-					callerSlice = true
-				}
-				if u, ok := direct.(*ssa.UnOp); ok {
-					if _, ok := u.X.(*ssa.FreeVar); ok {
+				// (a parameter of an unexported constructor helper stands for what its callers pass)
+				for _, src := range paramSources(p, direct, 0) {
+					if ct, ok := src.(*ssa.ChangeType); ok {
+						src = ct.X
+					}
+					if _, ok := src.(*ssa.Parameter); ok {
 						callerSlice = true
 					}
-				}
-				if fv, ok := direct.(*ssa.FreeVar); ok {
-					_ = fv
-					callerSlice = true
+					if u, ok := src.(*ssa.UnOp); ok {
+						if _, ok := u.X.(*ssa.FreeVar); ok {
+							callerSlice = true
+						}
+					}
+					if _, ok := src.(*ssa.FreeVar); ok {
+						callerSlice = true
+					}
 				}
 				if callerSlice {
 					r.Bad("C19.W4", key, st.Pos(), "%s stores the caller's slice as the middleware chain %s without copying it: the chain shares its backing array with the caller (and with other clients built from the same base slice), so a later append or write changes which middlewares a live chain runs", fnKey(fn), fname(fld))
